@@ -233,7 +233,9 @@ class StickyAssignmentExecutor:
                 self.partition_to_all_potential_consumers[partition] = []
         for consumer_id, member_metadata in self.members.items():
             self.consumer_to_all_potential_partitions[consumer_id] = []
-            for topic in member_metadata.subscription:
+            # in sorted order: members that subscribe to the same topics must get
+            # identical lists whatever the order they named the topics in
+            for topic in sorted(member_metadata.subscription):
                 partitions_for_topic = cluster.partitions_for_topic(topic)
                 if partitions_for_topic is None:
                     log.warning("No partition metadata for topic %r", topic)
